@@ -582,6 +582,14 @@ func (fr *Frame) sliceOp(in *ssa.Slice) {
 	if in.Max != nil {
 		mx = fr.term(fr.val(in.Max))
 	}
+	// bounds of an unsigned small integer type (e.g. the uint8 offsets stringer generates) are numbers
+	asInt := func(t *Term) *Term {
+		if t != nil && t.S.IsBV() {
+			return App("bv2nat", SInt, t)
+		}
+		return t
+	}
+	lo, hi, mx = asInt(lo), asInt(hi), asInt(mx)
 	switch u := in.X.Type().Underlying().(type) {
 	case *types.Pointer: // *[N]T
 		arr := u.Elem().Underlying().(*types.Array)
